@@ -204,4 +204,68 @@ def handshakeSize (lines : List Bytes) : Option Size :=
   | none => none
   | some r => if 200 ≤ r.status ∧ r.status < 300 then some (.len 0) else none
 
+/-! ### both connections together (buffered mode): merged schedules of client and server segments -/
+
+/-- a segment arriving on the client connection / on the upstream connection -/
+inductive Ev where
+  | client (d : Bytes)
+  | server (d : Bytes)
+  deriving Repr, DecidableEq
+
+inductive SysOut where
+  | request (o : Out)        -- emitted by the reader of the client stream: forwarded upstream
+  | response (o : Out)       -- emitted by the reader of the origin's stream: relayed to the client
+  deriving Repr, DecidableEq
+
+structure Sys where
+  s : St        -- Http1Server: reads the client stream
+  c : St        -- Http1Client: reads the origin's stream
+  deriving Repr, DecidableEq
+
+def hasMsg (os : List Out) : Bool := os.any fun o => match o with | .msg _ _ => true | _ => false
+
+/-- the request has been forwarded: the upstream reader now expects a response head.  (Nothing is drained here: under
+    causality nothing is buffered on an idle upstream connection — the real code closes it when something arrives.) -/
+def expect (c : St) : St :=
+  match c.phase with
+  | .wait => ⟨.head, c.buf⟩
+  | _ => c
+
+/-- one received segment.  A completed request makes the upstream reader expect a response; a completed response finishes
+    the flow: `mark_done` releases the reader of the client stream, which may complete the next pipelined request at once. -/
+def sysStep (sizeQ sizeR : List Bytes → Option Size) (σ : Sys) : Ev → Sys × List SysOut
+  | .client d =>
+    let r := feed sizeQ σ.s d
+    (⟨r.1, cond (hasMsg r.2) (expect σ.c) σ.c⟩, r.2.map .request)
+  | .server e =>
+    let r := feed sizeR σ.c e
+    let q := release sizeQ σ.s
+    cond (hasMsg r.2)
+      (⟨q.1, cond (hasMsg q.2) (expect r.1) r.1⟩, r.2.map .response ++ q.2.map .request)
+      (⟨σ.s, r.1⟩, r.2.map .response)
+
+def sysRun (sizeQ sizeR : List Bytes → Option Size) (σ : Sys) : List Ev → Sys × List SysOut
+  | [] => (σ, [])
+  | ev :: rest =>
+    let r := sysStep sizeQ sizeR σ ev
+    let t := sysRun sizeQ sizeR r.1 rest
+    (t.1, r.2 ++ t.2)
+
+/-- causality (buffered mode): a segment of the origin arrives only while a request is outstanding, i.e. while the reader
+    of the client stream waits for the flow to finish -/
+def Causal (sizeQ sizeR : List Bytes → Option Size) (σ : Sys) : List Ev → Prop
+  | [] => True
+  | .client d :: rest => Causal sizeQ sizeR (sysStep sizeQ sizeR σ (.client d)).1 rest
+  | .server e :: rest => σ.s.phase = .wait ∧ Causal sizeQ sizeR (sysStep sizeQ sizeR σ (.server e)).1 rest
+
+def clientBytes : List Ev → Bytes
+  | [] => []
+  | .client d :: rest => d ++ clientBytes rest
+  | .server _ :: rest => clientBytes rest
+
+def serverEvs : List Ev → List Ev
+  | [] => []
+  | .client _ :: rest => serverEvs rest
+  | .server e :: rest => .server e :: serverEvs rest
+
 end MitmVerif.C02
